@@ -12,6 +12,7 @@ structure St where
   minFrozen : Nat := 0
   reserved : Reserved := []                 -- MODEL of usedCache (outpoints "T:i")
   drafts : List (String × List String) := []   -- (identity, inputs) of the drafts the MODEL returned
+  sums : List String := []                     -- results of the create ops since the last `sums`
   -- spec side (fed by `judgetx` lines = the ACTUAL results of the implementation)
   lastReq : Option Spec.TxBuild.Req := none
   sDrafts : List (String × List Spec.TxBuild.OutPt × Bool) := []   -- (identity, inputs, still outstanding)
@@ -336,7 +337,7 @@ def judgeStep (st : St) (args : List String) : St × String :=
 
 -- ------------------------------------------------------------------ step
 
-def step (st : St) (args : List String) : St × String :=
+def step0 (st : St) (args : List String) : St × String :=
   match unitStep args with
   | some o => (st, o)
   | none =>
@@ -448,5 +449,17 @@ def step (st : St) (args : List String) : St × String :=
   | _ =>
     let (l, o) := Led.step st.led args
     ({ st with led := l }, o)
+
+def isCreate (op : String) : Bool :=
+  op == "auto" || op == "est" || op == "apiauto" || op == "man" || op == "apiman" || op == "stake" || op == "bind"
+
+/-- create ops only acknowledge; their results are compared at the next `sums` (model) and `judge` (spec) -/
+def step (st : St) (args : List String) : St × String :=
+  match args with
+  | ["sums"] => ({ st with sums := [] }, if st.sums.isEmpty then "-" else " ; ".intercalate st.sums)
+  | op :: _ =>
+    let (st', o) := step0 st args
+    if isCreate op && o != "bad-op" then ({ st' with sums := st'.sums ++ [o] }, "done") else (st', o)
+  | [] => step0 st args
 
 end MW.Drv.Txb
